@@ -213,8 +213,18 @@ def check(ctx):
                         return _copy.deepcopy(A.consts[n.attr])
                     return n
             return norm(R2().visit(e_))
+        def orient(t_):
+            # `0.0 > x` is `x < 0.0`
+            try:
+                e_ = ast.parse(t_, mode='eval').body
+            except SyntaxError:
+                return t_
+            if isinstance(e_, ast.Compare) and len(e_.ops) == 1 and isinstance(e_.left, ast.Constant) and type(e_.ops[0]) in (ast.Gt, ast.GtE, ast.Lt, ast.LtE):
+                sw = {ast.Gt: ast.Lt, ast.GtE: ast.LtE, ast.Lt: ast.Gt, ast.LtE: ast.GtE}[type(e_.ops[0])]()
+                return norm(ast.Compare(left=e_.comparators[0], ops=[sw], comparators=[e_.left]))
+            return t_
         for conds, ret in sp_:
-            cd = dict(conds)
+            cd = {orient(k_): v_ for k_, v_ in dict(conds).items()}
             got[(cd.get(tz), cd.get(tx))] = tok(cc(ret)) if ret is not None else None
         want_tbl = {(False, False): raw, (True, False): 'FZ.rotate_translate_pose(%s)' % raw, (False, True): 'FX.rotate_translate_pose(%s)' % raw,
                     (True, True): 'FX.rotate_translate_pose(FZ.rotate_translate_pose(%s))' % raw}
@@ -263,6 +273,12 @@ def check(ctx):
             ctx.inst('R4', f, 'no-state-on-the-class', not kept, 'attributes written on the class / instance: %s' % kept)
     ss = S.method('_scale_system')
     calls = [c for c in ast.walk(ss.node) if method_call(c, 'scale')]
+    # copy-and-scale through a helper that is called from inside a comprehension: statements cannot be read back into an expression,
+    # and following the factor through that call is not built - no verdict rather than a guess
+    in_comp = [norm(c.func) for comp in ast.walk(ss.node) if isinstance(comp, (ast.ListComp, ast.DictComp, ast.GeneratorExp, ast.SetComp))
+               for c in ast.walk(comp) if isinstance(c, ast.Call) and isinstance(c.func, ast.Attribute) and isinstance(c.func.value, ast.Name) and
+               c.func.value.id in ('cls', 'self', S.name) and S.has(c.func.attr)]
+    ctx.need(not (len(calls) != 2 and in_comp), '_scale_system: poses are scaled through %s inside a comprehension (not analysed)' % sorted(set(in_comp)))
     ok = len(calls) == 2
     fused = []                     # (input iterated, kept in) for the copy-scale-store-in-one-loop form
     gss = cfg_of(ss)
